@@ -22,7 +22,7 @@ import (
 	"verifharness/sysgen"
 )
 
-func main() { Main("C11", checkC11, GenBufferConsts, sysgen.Gen, stateGen) }
+func main() { Main("C11", checkC11, stateGen, GenBufferConsts, sysgen.Gen) }
 
 type Spec struct {
 	Sink      string  `json:"sink"`            // direct3 tri stl 3mf | direct2 dxf svg
